@@ -311,9 +311,24 @@ pub struct BinaryExpr {
     pub right: Expr,
 }
 
+impl BinaryExpr {
+    /// Writes the expression without the enclosing parentheses. A left operand that uses the same
+    /// operator goes without parentheses of its own: all operators group to the left, so `a+b+c`
+    /// reads back as `(a+b)+c`, and a long sum does not pile up one level of nesting per term
+    fn fmt_chain(&self, f: &mut fmt::Formatter) -> fmt::Result {
+        match &self.left {
+            Expr::Binary(inner) if inner.operator == self.operator => inner.fmt_chain(f)?,
+            other => write!(f, "{}", other)?,
+        }
+        write!(f, "{}{}", self.operator, self.right)
+    }
+}
+
 impl fmt::Display for BinaryExpr {
     fn fmt(&self, f: &mut fmt::Formatter) -> fmt::Result {
-        write!(f, "({}{}{})", self.left, self.operator, self.right)
+        write!(f, "(")?;
+        self.fmt_chain(f)?;
+        write!(f, ")")
     }
 }
 
